@@ -45,7 +45,7 @@ RULE = (
     "COVARIATE with ?, lists, @refs + LET, effect wildcard, operators; ALLOMETRY), each rendered twice; a case is "
     "non-trivial when pharmpy accepted the text and >= 1 category was compared.  pair: all ordered pairs of the operand "
     "pool (all 1-statement descriptions + a strided selection of 2-statement descriptions).  algo: all products of "
-    "per-category PK options with <= 200 combinations x <= 2 base combinations; stepwise trees only when the reference "
+    "per-category PK options with <= 200 combinations x <= 3 base combinations (two of the space + the documented default model); stepwise trees only when the reference "
     "has <= cap paths (larger ones are counted as skipped).  states = cases, transitions = pharmpy operations executed"
 )
 ASSUMPTIONS = [
@@ -66,10 +66,10 @@ ASSUMPTIONS = [
 ]
 BOUNDS = {
     "quick": "desc: full menu (137 statements) L<=2 and small menu (42) L<=3, 2 renderings each; pair: pool of 400 spaces "
-             "(160000 ordered pairs x 5 operations); sets n<=7; iiv: 18 models with 1..6 etas; algo: 540 spaces x <= 2 bases, "
+             "(160000 ordered pairs x 5 operations); sets n<=7; iiv: 18 models with 1..6 etas; algo: 828 spaces x <= 3 bases, "
              "stepwise trees when the reference has <= 200 paths",
     "thorough": "desc: full menu L<=3 and small menu L<=4; pair: pool of 1500 spaces (2.25e6 ordered pairs); sets n<=9; "
-                "iiv: 18 models with 1..6 etas; algo: 3228 spaces x <= 2 bases, stepwise trees when the reference has <= 400 paths",
+                "iiv: 18 models with 1..6 etas; algo: 3228 spaces x <= 3 bases, stepwise trees when the reference has <= 400 paths",
 }
 
 PLAN = {
@@ -740,7 +740,9 @@ def algo_menu(size):
             "ABSORPTION": [None, N("FO"), N("ZO", "FO"), W],
             "ELIMINATION": [None, N("MM"), N("FO", "MM", "ZO")],
             "TRANSITS": [None, [["n", 1], None], [["list", [0, 1, 3]], None], [["list", [0, 1]], W]],
-            "PERIPHERALS": [None, [["n", 1], None], [["range", 0, 2], None], [["range", 0, 3], None]],
+            # [1,3] / [0,2]: a gap in the counts (the next larger count follows on a stepwise path, not count + 1)
+            "PERIPHERALS": [None, [["n", 1], None], [["range", 0, 2], None], [["range", 0, 3], None], [["list", [1, 3]], None],
+                            [["list", [0, 2]], None]],
             "LAGTIME": [None, N("ON"), W],
         }
     return {
@@ -778,7 +780,8 @@ def algo_spaces(size):
 
 
 def bases_of(m):
-    """<= 2 base combinations of the space: the one closest to the documented defaults, and the last one"""
+    """<= 3 base combinations: the one of the space closest to the documented defaults, the last one of the space, and the
+    documented default model itself"""
     first, last = [], []
     for c in R.PK_CATS:
         ks = sorted(m.cats[c])
@@ -787,6 +790,11 @@ def bases_of(m):
     out = [tuple(first)]
     if tuple(last) != tuple(first):
         out.append(tuple(last))
+    # the documented default model even when it is outside the space (the usual start model: no feature of the space
+    # is taken by the base, so e.g. PERIPHERALS([1,3]) keeps both counts)
+    dflt = tuple(R.DEFAULTS[c] for c in R.PK_CATS)
+    if dflt not in out:
+        out.append(dflt)
     return out
 
 
